@@ -55,10 +55,10 @@ def _kinds_prior(a, b, c, d):
     return ka, kb, kc, kd
 
 
-def _old_index(path, fs):
+def _old_index(path, fs, with_hashes=True):
     idx = DataIndex()
     idx.storage_map.add_data(FileStorage(key=(), fs=fs, path=path))
-    for entry in build_entries(path, fs, compute_hash=True):
+    for entry in build_entries(path, fs, compute_hash=with_hashes):
         idx.add(entry)
     return idx
 
@@ -119,7 +119,9 @@ def h_converge(pa: int, pb: int, pc: int, pd: int, ta: int, tb: int, tc: int, td
             errors.append(dst)
 
         try:
-            old = _old_index(ws, env.fs)
+            # cube oldhash=False: the prior workspace is indexed without hashes, as index.build.build() does (push/fetch and plain
+            # checkouts): every file is then re-created, and directory/file kind changes must still be recognised
+            old = _old_index(ws, env.fs, with_hashes=bool(cube("oldhash", True)))
             diff = compare(old, new, delete=DELETE)
             apply(diff, ws, env.fs, onerror=onerror, update_meta=False, storage="cache")
         except HarnessGap:
@@ -140,7 +142,7 @@ def h_converge(pa: int, pb: int, pc: int, pd: int, ta: int, tb: int, tc: int, td
             if FORM == "lazy":
                 tdirs = {"a"} | {k for k in tdirs if any(f.startswith(k + "/") for f in tfiles)}
             # an unavailable source only matters for files that actually have to be (re)created
-            unav = {k for k in tfiles if unavail.get(k) and not (prior.get(k) == "file" and same.get(k))}
+            unav = {k for k in tfiles if unavail.get(k) and not (prior.get(k) == "file" and same.get(k) and cube("oldhash", True))}
             err_rel = sorted(p[len(ws) + 1:] for p in errors if p)
             files_after = {k: v for k, v in after.items() if v[0] in ("file", "link") and not k.endswith(".tmp")}
             if DELETE:
